@@ -562,4 +562,30 @@ theorem gcxsKey_counterexample : ¬ Statement_gcxsKey := by
 theorem gcxsKeyFixed_width_independent (k : Int) (hk : intp.fits k) : gcxsKeyFixed k = .ok k := by
   simp [gcxsKeyFixed, castTo, wrap_of_fits hk]
 
+/-! ## W16 `uint64` index arrays -/
+
+/-- **storedTy_fixed_not_uint64.** With the proposed fix no array keeps an unsigned 64-bit index dtype, so the
+excluded region of `kron_width_independent` / `pad_width_independent` (and of everything else NumPy would
+promote to `float64`) is never entered; every other dtype is kept as it is. -/
+theorem storedTy_fixed_not_uint64 (t : IdxTy) :
+    ¬ Excluded_uint64 (storedTy true t) ∧ (¬ Excluded_uint64 t → storedTy true t = t) := by
+  unfold storedTy Excluded_uint64
+  cases hs : t.signed with
+  | true => simp [hs]
+  | false =>
+    by_cases hb : 64 ≤ t.bits
+    · simp [hb, i64]
+    · simp [hb]
+
+/-- **storedCoord_width_independent.** Storing a coordinate that the given dtype holds (and that is addressable)
+is exact with and without the fix. -/
+theorem storedCoord_width_independent (fixed : Bool) (t : IdxTy) (c : Int) (hc : t.fits c) (h64 : intp.fits c) :
+    storedCoord fixed t c = c := by
+  unfold storedCoord storedTy castTo
+  split
+  · exact wrap_of_fits h64
+  · exact wrap_of_fits hc
+
+example : storedTy true u64 = intp ∧ storedTy false u64 = u64 ∧ storedTy true u8 = u8 ∧ Excluded_uint64 u64 := by decide
+
 end SparseV.C15
